@@ -27,6 +27,11 @@ theorem gen_defaults_eq_model :
 /-- the dtype decision for the constructor's `pos` (`posLit` of the model casts exactly these kinds). -/
 theorem gen_posCastKinds_eq_model : AtomsSource.posCastKinds = posCastKinds := by decide
 
+/-- which properties `atoms_df(scale)` converts. -/
+theorem gen_dfScaleKeys_eq_model : AtomsSource.dfScaleKeys = dfScaleKeys := by
+  funext scale
+  rcases scale with ((_ | _) | t) | k | l <;> simp [AtomsSource.dfScaleKeys, dfScaleKeys, DfScale.isList, DfScale.single, DfScale.toKeys]
+
 theorem gen_intslice_eq_model : AtomsSource.intslice = intslice := by
   funext i; simp only [AtomsSource.intslice, intslice]
 
